@@ -283,7 +283,7 @@ TREE_SPECS = [  # (states, colours, halt, steps) as in test/test_tree.py
     (2, 2, 0, 20), (3, 2, 0, 15), (2, 3, 0, 23), (4, 2, 1, 35), (2, 4, 1, 100),
 ]
 STRIDES = {
-    "quick": [2, 150, 110, 6500, 4500],
+    "quick": [1, 40, 30, 1500, 1000],
     "thorough": [1, 4, 3, 100, 70],
 }
 
@@ -310,8 +310,7 @@ def gen_progs(tier, seed):
             progs.append(core.rand_prog(rng, s, c, p_undef=rng.choice([0.0, 0.1, 0.2]), normal=True))
         desc.append(f"{n} random normal-form programs (tree op unavailable)")
     named = core.named_progs()
-    if tier != "thorough":
-        named = core.NAMED + rng.sample(named, 90)
+    # every named machine in both tiers (1 644 machines: 3 s of Python at 2000 cycles)
     desc.append(f"{len(named)} named machines")
     seen, res = set(), []
     for p in progs + named:
